@@ -309,10 +309,50 @@ def _candidates(ns, owner_mod, want_classes, ckey):
     return ent[1], ent[2]
 
 
+_FUNCS = None          # every function / method object of the package (for function attributes), found once
+_OPAQUE = None         # functools.lru_cache wrappers of the package: state that can be cleared but not read or copied
+
+
+def _scan_functions():
+    global _FUNCS, _OPAQUE
+    import functools
+    funcs, opaque = [], []
+    wrapper_type = type(functools.lru_cache(maxsize=1)(lambda: None))
+    for m in _pkg_modules():
+        for k, v in list(vars(m).items()):
+            if isinstance(v, wrapper_type):
+                opaque.append(((m.__name__, k), v))
+            elif isinstance(v, _types.FunctionType) and v.__module__ == m.__name__:
+                funcs.append((("a", m.__name__, k), v))
+            elif isinstance(v, type) and (v.__module__ or "") == m.__name__:
+                for ck, cv in list(vars(v).items()):
+                    raw = getattr(cv, "__func__", cv)
+                    if isinstance(raw, wrapper_type):
+                        opaque.append(((m.__name__, k, ck), raw))
+                    elif isinstance(raw, _types.FunctionType):
+                        funcs.append((("a", m.__name__, k, ck), raw))
+    _FUNCS, _OPAQUE = funcs, opaque
+
+
+def opaque_caches():
+    """lru_cache-wrapped functions of the package.  Their contents cannot be copied with a world; when any exists
+    the engine stops copying worlds and replays every history from a fresh start instead (engine._expand_one)."""
+    if _OPAQUE is None:
+        _scan_functions()
+    return _OPAQUE
+
+
+def clear_opaque_caches():
+    for _, w in opaque_caches():
+        w.cache_clear()
+
+
 def capture_pkg_state():
     global _DEFAULTS
     if _DEFAULTS is None:
         _DEFAULTS = _find_defaults()
+    if _FUNCS is None:
+        _scan_functions()
     out = {}
     for m in _pkg_modules():
         mname = m.__name__
@@ -333,10 +373,42 @@ def capture_pkg_state():
                     out[("c", mname, k, ck)] = cv
     for key, fn in _DEFAULTS:
         out[key] = fn.__defaults__
+    for key, fn in _FUNCS:
+        if fn.__dict__:                      # function attributes (def f(): ...; f.cache = {})
+            d = dict((ak, av) for ak, av in fn.__dict__.items() if not ak.startswith("__") and _is_data(av))
+            if d:
+                out[key] = d
+    _LIVE_KEYS[0] = frozenset(out)
     return out
 
 
+_LIVE_KEYS = [frozenset()]     # keys present in the live modules (as of the last capture / install in this process)
+
+
+def _remove_live(key):
+    mod = sys.modules.get(key[1])
+    if mod is None:
+        return
+    try:
+        if key[0] == "m":
+            delattr(mod, key[2])
+        elif key[0] == "c":
+            delattr(getattr(mod, key[2]), key[3])
+        elif key[0] == "a":
+            owner = getattr(mod, key[2])
+            fn = _fn_of(owner) if len(key) == 3 else _fn_of(vars(owner)[key[3]])
+            for ak in [x for x in fn.__dict__ if not x.startswith("__")]:
+                del fn.__dict__[ak]
+    except (AttributeError, KeyError):
+        pass
+
+
 def install_pkg_state(st):
+    ks = frozenset(st)
+    if ks != _LIVE_KEYS[0]:
+        for key in _LIVE_KEYS[0] - ks:       # created by another world's history: not part of this one
+            _remove_live(key)
+        _LIVE_KEYS[0] = ks
     for key, v in st.items():
         mod = sys.modules.get(key[1])
         if mod is None:
@@ -349,6 +421,12 @@ def install_pkg_state(st):
             fn = _fn_of(vars(getattr(mod, key[2]))[key[3]])
             if fn.__defaults__ is not v:
                 fn.__defaults__ = v
+        elif key[0] == "a":
+            owner = getattr(mod, key[2])
+            fn = _fn_of(owner) if len(key) == 3 else _fn_of(vars(owner)[key[3]])
+            for ak in [x for x in fn.__dict__ if not x.startswith("__") and x not in v]:
+                del fn.__dict__[ak]
+            fn.__dict__.update(v)
         elif key[0] == "f":
             if getattr(mod, key[2]).__defaults__ is not v:
                 getattr(mod, key[2]).__defaults__ = v
@@ -356,6 +434,7 @@ def install_pkg_state(st):
 
 import pickle as _pickle  # noqa: E402
 _PRISTINE = _pickle.dumps(capture_pkg_state(), -1)
+_PRISTINE_KEYS = set(_pickle.loads(_PRISTINE))
 
 
 def pristine_pkg_state():
@@ -365,3 +444,4 @@ def pristine_pkg_state():
 
 def reset_pkg_state():
     install_pkg_state(pristine_pkg_state())
+    clear_opaque_caches()
